@@ -60,7 +60,7 @@ def _validate(ctx, tpath, cases, prof):
             ev = events[i - 1]
             c = by_id[str(ev["id"])]
             ctx.violation({"dir": "impl->spec", "profile": prof, "container": ev["c"], "textures": len(ev["v"]),
-                           "placement": c["p"], "why": rep[i]["why"],
+                           "placement": c["p"], "via": ev.get("via"), "why": rep[i]["why"],
                            "returned": [{"name": o["name"], "w": o["w"], "h": o["h"]} for o in ev["out"]][:6]},
                           {"case": c, "profile": prof, "event": ev})
     return events
@@ -79,7 +79,7 @@ def run(ctx):
     env = {"VERIF_TIER": ctx.tier}
     # texture lists (3DS containers, TPL) x placements (CTPK + BCH + CGFX, TPL)
     # (the lists with a 64 KiB payload - quick 1 + 1, thorough 3 + 1 - get the first and every 8th placement)
-    l3, lt = ctx.pick((12, 10), (24, 17))
+    l3, lt = ctx.pick((14, 10), (26, 17))
     p3, pt = ctx.pick((9, 3), (104, 18))
     n_cases = ctx.pick((l3 - 1) * p3 + 3 + (lt - 1) * pt + 1, (l3 - 3) * p3 + 3 * 14 + (lt - 1) * pt + 3)
     # 1. laws on the model
@@ -148,6 +148,10 @@ def run(ctx):
         "any byte), gaps and trailing bytes (filler byte), reserved fields (junk byte); the expected reading does not depend on them",
         "freedom from panic / abort / hang / runaway allocation is observed on the generated files and all their prefixes, not proved",
         "the statement demands no magic check of CTPK: none is exercised",
+        "L4 / A4 (not named by the pixel statement): carried by the containers with the readers' de-facto payload size (L4 4 bits, "
+        "A4 one byte per texel), pixel content unconstrained",
+        "a sample of the files (first placement of every list, <= 8 KiB) is also written into a LayeredFilesystem (FE14, plain and "
+        ".lz name) and read back with read_{ctpk,bch,cgfx,tpl}_textures; the name-keyed map is validated by TLC (MapReadOK)",
     ]
 
 
